@@ -366,6 +366,27 @@ def report(prop, tier, seed, units, results, findings, wall, meta) -> int:
                                                 "confirmed": True})
                     except Exception as ex:
                         bounded_notes.append(f"{u.name}: bounded stand-in crashed: {ex}")
+                elif r["undecided"] and u.replay is not None:
+                    # the proof is undecided on this tree (construct outside the subset / contract no longer binds):
+                    # fall back to the unit's concrete scenario (its replay script with an empty model) as a BOUNDED
+                    # stand-in.  A failing scenario is a concrete failing input on the real code (sound violation);
+                    # a passing one proves nothing and the unit stays undecided.
+                    try:
+                        body = u.replay({"name": u.name, "model": {}, "verdict": "undecided", "path": "-"})
+                        if body:
+                            hdr = (f"# bounded stand-in for undecided unit {u.name} (property {prop})\n"
+                                   f"# reason: {r['undecided'][0][:300]}\n")
+                            path = _write_replay_text(prop, u.name + "/bounded-standin", hdr + body)
+                            confirmed, rout = run_replay(path)
+                            with open(path, "a") as f:
+                                f.write("\n# --- output ---\n" + "".join(f"# {l}\n" for l in rout.splitlines()[-30:]))
+                            bounded_notes.append(f"{u.name}: proof undecided; bounded scenario stand-in {'FAILED' if confirmed else 'passed'}")
+                            if confirmed:
+                                lines.append(f"VIOLATION property={prop} replay={path}")
+                                vio_records.append({"obligation": u.name + "/bounded-standin", "model": None, "replay": path,
+                                                    "confirmed": True})
+                    except Exception as ex:
+                        bounded_notes.append(f"{u.name}: bounded scenario stand-in crashed: {ex}")
 
     status = 0
     if vio_records:
